@@ -23,6 +23,7 @@ var consumerTable = map[string]string{
 	"generator/go/gounions.(context).codeForStruct":      "go",
 	"generator/go/randdata.(context).codeForStruct":      "go",
 	"generator/go/sqlcrud.(context).compositeConverters": "go",
+	"analysis.(*Analysis).handleStructFields":            "analysis", // builds the field list itself (flattening), checked by AGR-C09c
 	"analysis/sql.NewTable":                              "sql",
 	"analysis/sql.isComposite":                           "sql",
 	"generator/sql.compositeDecl":                        "sql",
@@ -443,17 +444,33 @@ func checkFlatten(w *World, r *Result) {
 	fi := w.MustFunc("analysis.(*Analysis).handleStructFields")
 	info := fi.Pkg.TypesInfo
 	name := fi.Name
-	// locate: flatten append (variadic append of X.Fields...) and regular append (StructField literal)
+	// locate: the flattening site -- variadic append of X.Fields..., or a loop over X.Fields that appends one
+	// element per promoted field -- and the regular append (StructField literal outside that loop)
 	var flatten, regular *ast.CallExpr
+	var flattenLoop *ast.RangeStmt
+	fieldsField := w.Field("analysis", "Struct", "Fields")
+	ast.Inspect(fi.Decl.Body, func(n ast.Node) bool {
+		rs, ok := n.(*ast.RangeStmt)
+		if !ok {
+			return true
+		}
+		if sel, ok := ast.Unparen(rs.X).(*ast.SelectorExpr); ok && info.Uses[sel.Sel] == types.Object(fieldsField) {
+			flattenLoop = rs
+		}
+		return true
+	})
 	ast.Inspect(fi.Decl.Body, func(n ast.Node) bool {
 		call, ok := n.(*ast.CallExpr)
 		if !ok || !isBuiltinCall(info, call, "append") {
 			return true
 		}
+		inLoop := flattenLoop != nil && flattenLoop.Body.Pos() <= call.Pos() && call.End() <= flattenLoop.Body.End()
 		if call.Ellipsis.IsValid() {
 			flatten = call
 		} else if len(call.Args) == 2 {
-			if _, ok := call.Args[1].(*ast.CompositeLit); ok {
+			if inLoop {
+				flatten = call
+			} else if _, ok := call.Args[1].(*ast.CompositeLit); ok {
 				regular = call
 			}
 		}
@@ -461,6 +478,35 @@ func checkFlatten(w *World, r *Result) {
 	})
 	if flatten == nil || regular == nil {
 		Undecided("handleStructFields: flatten/regular appends not found (shape not recognised)")
+	}
+	// a promoted field copied element-wise keeps its own type, field object and tag
+	if flattenLoop != nil && !flatten.Ellipsis.IsValid() {
+		v := identOf(flattenLoop.Value)
+		if v == nil {
+			Undecided("handleStructFields: the flattening loop has no value variable")
+		}
+		vObj := info.Defs[v]
+		arg := ast.Unparen(flatten.Args[1])
+		okCopy := false
+		why := "the appended element is neither the promoted field itself nor a StructField built from it"
+		if id := identOf(arg); id != nil && objOf(info, id) == vObj {
+			okCopy = true
+		} else if lit, ok := arg.(*ast.CompositeLit); ok {
+			okCopy = len(lit.Elts) == 3
+			for _, el := range lit.Elts {
+				kv, ok := el.(*ast.KeyValueExpr)
+				if !ok {
+					okCopy = false
+					continue
+				}
+				sel, isSel := ast.Unparen(kv.Value).(*ast.SelectorExpr)
+				if !isSel || identOf(sel.X) == nil || objOf(info, identOf(sel.X)) != vObj || sel.Sel.Name != es(kv.Key) {
+					okCopy = false
+					why = "the copy of a promoted field takes its " + es(kv.Key) + " from `" + es(kv.Value) + "` instead of the promoted field's own " + es(kv.Key) + ": its json/gomacro tags (key, ignore and opaque directives), type or identity are replaced by the embedding field's"
+				}
+			}
+		}
+		r.cond(okCopy, "AGR-C09c", name, "promoted fields keep their own Type, Field and Tag", w.Pos(flatten.Pos()), "each promoted field is appended as it was analysed in the embedded struct", why)
 	}
 	// objects
 	var fieldVar, idxVar types.Object
